@@ -100,6 +100,19 @@ pub fn werr(e: &WebauthnError) -> String {
     }
 }
 
+/// per-credential PRF keys written `@k` stand for the base64url id of the k-th credential registered in the case;
+/// later entries repeating a key are dropped (the real input is a map)
+fn resolve_keys(e: &Option<CExt>, reg_ids: &[Vec<u8>]) -> Option<CExt> {
+    let fix = |p: &Option<CPrfI>| p.as_ref().map(|i| CPrfI { eval: i.eval.clone(), by_cred: i.by_cred.as_ref().map(|l| {
+        let mut out: Vec<(String, CPrfV)> = vec![];
+        for (k, v) in l {
+            let key = match k.strip_prefix('@') { Some(n) if !reg_ids.is_empty() => passkey_types::encoding::base64url(&reg_ids[n.parse::<usize>().unwrap_or(0) % reg_ids.len()]), Some(_) => "AAAA".to_string(), None => k.clone() };
+            if !out.iter().any(|(k2, _)| *k2 == key) { out.push((key, v.clone())); }
+        }
+        out }) });
+    e.as_ref().map(|x| CExt { cred_props: x.cred_props, prf: fix(&x.prf), prf_hashed: fix(&x.prf_hashed) })
+}
+
 pub enum COp { Reg(RegOp), Auth(AuthOp) }
 pub struct CStep { pub op: COp, pub uv: UvState, pub faults: Vec<Option<u8>> }
 pub fn cstep(op: COp) -> CStep { CStep { op, uv: UvState::ok(), faults: vec![] } }
@@ -177,6 +190,7 @@ fn run_generic<S: Inner + 'static>(ctx: &mut Ctx, prop: &str, w: &World, inner: 
                     for k in &a1.allow_refs { l.push(reg_ids[k % reg_ids.len()].clone()); }
                     a1.allow = Some(l);
                 }
+                a1.ext = resolve_keys(&a1.ext, &reg_ids);
                 let a = &a1;
                 let Some((of, url)) = origin_fields(&a.org, a.rp.as_deref(), a.allow_localhost) else { ctx.stat("cl.url_parse_error"); continue; };
                 client = client.allows_insecure_localhost(a.allow_localhost);
